@@ -89,7 +89,12 @@ func runC06(c *Check) {
 			}
 			old, nw := ArgTerm(n, 1), ArgTerm(n, 2)
 			if old.Op == "const" && old.Name == "0" {
-				c.OK("C06-R1", inst, fnName(fn), pos, "initialisation: CAS from 0 to "+trunc(nw.String(), 80), true)
+				fromStore := strings.Contains(nw.String(), "Uint64(") && strings.Contains(nw.String(), "pkg/store.Store).GetMetadata(") && strings.Contains(nw.String(), ".metaKey")
+				if fromStore {
+					c.OK("C06-R1", inst, fnName(fn), pos, "initialisation: CAS from 0 to the value persisted under the tracker's own key: "+trunc(nw.String(), 80), true)
+				} else {
+					c.Bad("C06-R1", inst, fnName(fn), pos, "the watermark is initialised from something other than the value persisted under the tracker's own metadata key ("+trunc(nw.String(), 100)+"): after a restart submission does not resume where it stopped", nil)
+				}
 				continue
 			}
 			isLoad := old.IsCall("atomic.Uint64).Load") && old.Args[0].Op == "field" && old.Args[0].Name == "lastHeight"
@@ -102,6 +107,33 @@ func runC06(c *Check) {
 					(t.Name == "<=" && !f.Pol && t.Args[0].String() == nw.String() && t.Args[1].String() == old.String())) {
 					guard = true
 				}
+			}
+			// the new watermark is persisted under the tracker's key after the CAS succeeded
+			persisted := false
+			casOK := g.Select(EdgeWhere(func(t *Term, pol bool, x *Node) bool {
+				t, pol = normFact(t, pol)
+				return pol && t.V == ssa.Value(n.In.(*ssa.Call))
+			}))
+			for _, sm := range g.Select(IsCall(storeM("SetMetadata"))) {
+				k, v := ArgTerm(sm, 1), ArgTerm(sm, 2)
+				wrote := false
+				if al, ok := rootAlloc(rootOf(v)); ok || v.Op == "make" {
+					_ = al
+				}
+				// the bytes written: PutUint64(buf, new)
+				for _, pu := range g.Select(func(x *Node) bool { return strings.HasSuffix(CallName(x), ").PutUint64") }) {
+					if ArgTerm(pu, 2) != nil && ArgTerm(pu, 2).String() == nw.String() && ArgTerm(pu, 1).String() == v.String() {
+						wrote = true
+					}
+				}
+				if k.Op == "field" && k.Name == "metaKey" && wrote && len(casOK) > 0 && g.PathAvoiding([]*Node{g.Entry}, nodeSet([]*Node{sm}), nodeSet(casOK)) == nil {
+					persisted = true
+				}
+			}
+			if isLoad && guard && !persisted {
+				c.Bad("C06-R1", inst+" ⟂ persisted", fnName(fn), pos, "after a successful CAS the new watermark is not written (as the same value, under the tracker's own key) to the store: a restart resumes from an older height or from another tracker's", nil)
+			} else if isLoad && guard {
+				c.OK("C06-R1", inst+" ⟂ persisted", fnName(fn), pos, "the value set is persisted under the tracker's key after the CAS succeeded", true)
 			}
 			if isLoad && guard {
 				c.OK("C06-R1", inst, fnName(fn), pos, "CAS(old, new) with old = Load() and guarded by new > old", true)
